@@ -372,7 +372,14 @@ fn exec(w: &mut World, toks: &[&str], i: usize) -> (usize, String) {
           Poll::Ready(Err(_)) => "ready disc".into(),
         },
       };
-      (3, r)
+      // every poll is followed by the public len() observer (lets the monitor see how many values a
+      // still-Pending send_batch future has already moved into the channel)
+      let n = match w.h(w.fs[f].as_ref().unwrap().h) {
+        Some(H::ATx(t)) => t.len(),
+        Some(H::ARx(t)) => t.len(),
+        _ => usize::MAX,
+      };
+      (3, format!("{r} @{n}"))
     }
     "df" => {
       let f = num(1);
